@@ -386,9 +386,16 @@ func triedbEncoded(k *kernel.K, l string) harvested {
 type countingReader struct {
 	r     io.Reader
 	reads int
+	limit int
 }
 
-func (c *countingReader) Read(p []byte) (int, error) { c.reads++; return c.r.Read(p) }
+func (c *countingReader) Read(p []byte) (int, error) {
+	c.reads++
+	if c.reads > c.limit {
+		panic(readLimitExceeded{c.reads})
+	}
+	return c.r.Read(p)
+}
 
 type trieDecoder struct {
 	name   string
@@ -520,13 +527,17 @@ func (c *ctx) checkTrie(m mutant) bool {
 		var site string
 		reads := 0
 		call := func() {
-			cr := &countingReader{r: stdbytes.NewReader(m.data)}
+			cr := &countingReader{r: stdbytes.NewReader(m.data), limit: 16*len(m.data) + 1024}
 			enter(d.name, m.data)
 			pan, pval, site = guard(func() { _, err = d.decode(cr) })
 			leave()
 			reads = cr.reads
 		}
 		excess, exact := c.measured(len(m.data), call)
+		if pan && site == "read-limit" {
+			c.report("work", "reads-not-bounded-by-input:"+d.name, "%s: %s %s: input %s (%d bytes): more than 16*len+1024 Read calls - the decoder does not stop at the end of its input", d.name, m.kind, m.detail, hx(m.data), len(m.data))
+			continue
+		}
 		if pan {
 			c.report("panic", "panic@"+site, "%s: %s %s: input %s: panic: %v", d.name, m.kind, m.detail, hx(m.data), pval)
 			continue
@@ -535,9 +546,7 @@ func (c *ctx) checkTrie(m mutant) bool {
 			c.report("alloc", "alloc-exceeds-linear-bound:"+d.name, "%s: %s %s: input %s (%d bytes): decoding allocated %d bytes, bound 64*len+64KiB = %d (err=%v)",
 				d.name, m.kind, m.detail, hx(m.data), len(m.data), exact, 64*len(m.data)+allocFloor, err)
 		}
-		if reads > 16*len(m.data)+1024 {
-			c.report("work", "reads-not-bounded-by-input:"+d.name, "%s: %s %s: input %s (%d bytes): %d Read calls", d.name, m.kind, m.detail, hx(m.data), len(m.data), reads)
-		}
+		_ = reads
 		if err == nil {
 			decoded = true
 		}
@@ -713,10 +722,16 @@ func codecDiff(o *node.Node, e codec.EncodedNode) string {
 			}
 			switch x := dc.(type) {
 			case codec.InlineNode:
+				if len(mv) >= 32 {
+					return fmt.Sprintf("child %d: a hash reference became an inlined node", i)
+				}
 				if !stdbytes.Equal([]byte(x), mv) {
 					return fmt.Sprintf("inlined child %d: %x became %x", i, mv, []byte(x))
 				}
 			case codec.HashedNode[hash.H256]:
+				if len(mv) < 32 {
+					return fmt.Sprintf("child %d: an inlined node became a hash reference", i)
+				}
 				if !stdbytes.Equal(x.Hash.Bytes(), mv) {
 					return fmt.Sprintf("child %d: hash %x became %x", i, mv, x.Hash.Bytes())
 				}
